@@ -28,8 +28,14 @@ def run_variant(chk, tier, variant, own):
         chk.violation("L1:" + ",".join(res.violated), "algorithm layer violates: %s\n%s" % (res.violated, res.out[-1200:]),
                       {"leg": "L1"})
     cases = kernels.gen_cases(tier, core.SEED)
-    so = str(build.build_kernel(variant))
-    if variant == "asan":
+    so = str(build.build_kernel("plain" if variant == "guard" else variant))
+    if variant == "guard":
+        wd = core.workdir("guard")
+        try:
+            events = kernels.execute_guarded(cases, so, str(wd))
+        finally:
+            shutil.rmtree(wd, ignore_errors=True)
+    elif variant == "asan":
         wd = core.workdir("asan")
         try:
             events = kernels.execute_subprocess(cases, so, build.asan_runtime(), str(wd))
